@@ -33,5 +33,9 @@ VzKs == << KXRA, KXRB, B32(BFromBE(<<5>>)) >>
 VzDa(k) == BSubMod(BZero, BMulMod(Xbar(Mul(k, G)), BFromBE(k), NN), NN)
 VzRec(k) == [kind |-> "vzero", da |-> B32(VzDa(k)), db |-> KXDB, ra |-> k, check |-> IF C!PAdd(MulN(VzDa(k), G), MulN(Xbar(Mul(k, G)), Mul(k, G))) = C!Inf THEN 1 ELSE 0]
 ASSUME \A j \in 1..Len(VzKs) : PrintT(<<"PLAN", ToJson(VzRec(VzKs[j]))>>)
+\* an unlucky honest RESPONDER: for its ephemeral scalar k, the static key dB = -xbar([k]G) k (mod n) makes t_B = dB + xbar(R_B) k = 0, so V = [t_B](P_A + [xbar]R_A)
+\* is O although P_A + [xbar]R_A is not: step B5 must fail (a test of the point BEFORE the multiplication by t_B does not see it)
+TzRec(k) == [kind |-> "tzero", da |-> KXDA, db |-> B32(VzDa(k)), rb |-> k, check |-> IF BAddMod(VzDa(k), BMulMod(Xbar(Mul(k, G)), BFromBE(k), NN), NN) = BZero /\ VzDa(k) # BZero THEN 1 ELSE 0]
+ASSUME \A j \in 1..Len(VzKs) : PrintT(<<"PLAN", ToJson(TzRec(VzKs[j]))>>)
 Emit == kkind # "none" => PrintT(<<"PLAN", ToJson([ra |-> InSub("RA"), rb |-> InSub("RB"), sb |-> InSub("SB"), sa |-> InSub("SA"), kind |-> kkind])>>)
 =============================================================================
